@@ -343,6 +343,15 @@ def execute(programs, variant):
     for pi, prog in enumerate(programs):
         if variant == "B" or pi % 2:
             noise(variant if variant == "B" else "B" if pi % 4 == 1 else "A", env)
+        if variant == "B":
+            # "whatever was executed before": in this copy every call of the program has already been made once (any
+            # state a call leaves behind in the process -- caches, module-level tables -- is then part of the history)
+            for nm in sorted({op["name"] for op in prog if op["op"] == "call"}):
+                try:
+                    with np.errstate(all="ignore"):
+                        OPS[nm][1](env, None)
+                except Exception:
+                    pass
         gens = {}
         evs = []
         for op in prog:
